@@ -81,9 +81,12 @@ var _ = digest.SpecHashSlot // spec functions used by the contracts below
 //@   modifies phase, curDb
 //@   ensures deleted: err == nil ==> phase == 3
 
+//   collectable  1 while the stale-checkpoint collector has established, for the id it is looking at, that no
+//                source reports it and that none of its records was kept
 //@ func DelCheckpointHash(cli, runId) (err)
 //@   trusted abstract bookkeeping store
-//@   requires old_fields_deleted_first [C17]: phase >= 3
+//@   ghost var collectable mathint = 0
+//@   requires old_fields_deleted_first [C17]: phase >= 3 || collectable == 1
 //@   modifies curDb
 
 //@ func UpdateCheckpoint
